@@ -4,6 +4,7 @@ package main
 
 import (
 	"github.com/youchainhq/go-youchain/common"
+	"github.com/youchainhq/go-youchain/crypto"
 
 	"verifharness/internal/vh"
 )
@@ -230,6 +231,26 @@ func genCase(r *vh.RNG) *testCase {
 		}
 		c.txs = append(c.txs, t)
 	}
+	// sometimes the address a CREATE2 of some contract will produce already holds value (or is an account with a
+	// nonce: collision): CreateAccount must carry the balance over / the creation must fail
+	if r.Chance(15) {
+		bad := false
+	outer:
+		for _, a := range c.accts {
+			for _, s := range a.body {
+				if s.op == 'M' {
+					code, _ := assemble(c, s.init, 1, &bad)
+					at := crypto.CreateAddress2(a.addr, common.BigToHash(u2b(s.salt)), code)
+					pre := &account{addr: at, bal: uint64(r.Range(1, 30)), storage: map[uint64]uint64{}}
+					if r.Chance(25) {
+						pre.nonce = 1
+					}
+					c.accts = append(c.accts, pre)
+					break outer
+				}
+			}
+		}
+	}
 	return c
 }
 
@@ -255,5 +276,38 @@ func ghostCase(r *vh.RNG) *testCase {
 	} else {
 		c.txs = append(c.txs, tx{origin: originA, to: y, gas: 300000})
 	}
+	return c
+}
+
+// deepCase: one contract that calls itself until the call-depth limit (1024) stops it; the frames then unwind
+// through whatever the body does after the call (stop, revert, invalid, self-destruct).
+func deepCase(r *vh.RNG) *testCase {
+	c := &testCase{deep: true}
+	self := addrN(0xc100)
+	var body []step
+	if r.Chance(40) {
+		body = append(body, step{op: 'W', k: 1, v: uint64(r.Range(0, 2))})
+	}
+	call := step{op: 'C', kind: []string{"c", "c", "cc", "d"}[r.Intn(4)], addr: self, gas: 100000000000000}
+	if (call.kind == "c" || call.kind == "cc") && r.Chance(40) {
+		call.value = 1
+	}
+	body = append(body, call)
+	if r.Chance(40) {
+		body = append(body, step{op: 'L', topics: []uint64{7}})
+	}
+	g := &genCtx{r: r, pool: []common.Address{self}}
+	end := g.ending(0)
+	if end.op == 'R' || end.op == 'V' {
+		end.zeros, end.data = 0, nil
+	}
+	body = append(body, end)
+	c.accts = append(c.accts,
+		&account{addr: originA, bal: 1000000000, storage: map[uint64]uint64{}},
+		&account{addr: plainRich, nonce: 1, bal: 777, storage: map[uint64]uint64{}},
+		&account{addr: self, nonce: 1, bal: uint64(r.Range(0, 3)), storage: map[uint64]uint64{}, body: body})
+	c.extra = []common.Address{ghostA, ghostB}
+	c.txs = append(c.txs, tx{origin: originA, to: plainRich, gas: 30000, value: 1},
+		tx{origin: originA, to: self, gas: 10000000000000 * uint64(r.Range(1, 3))})
 	return c
 }
